@@ -1360,3 +1360,18 @@ def _text_specific_attrs(repo, ob, failure):
 
 GENERATORS.insert(0, ("C19.attrs.text_specific", _text_specific_attrs))
 GENERATORS.insert(0, ("C19.attrs.moved_lsp", _text_specific_attrs))
+
+
+def _phantom_text_content(repo, ob, failure):
+    """text content of <box> / <point> is rendered exactly like their text attribute"""
+    pairs = [('<svg><box xy="0" wh="20 10" text-loc="tl">label</box></svg>', '<svg><box xy="0" wh="20 10" text-loc="tl" text="label"/></svg>'),
+             ('<svg><point xy="30 5">P</point></svg>', '<svg><point xy="30 5" text="P"/></svg>')]
+    for a, b in pairs:
+        ra, rb = run_svgdx(repo, a, args=("--no-auto-styles",)), run_svgdx(repo, b, args=("--no-auto-styles",))
+        if ra["rc"] == 0 and rb["rc"] == 0 and ra["out"] != rb["out"]:
+            return {"input": a, "args": ["--no-auto-styles"], "observed": ra["out"].strip()[-200:], "expected": "the output of %s: %s" % (b, rb["out"].strip()[-200:])}
+    return None
+
+
+GENERATORS.insert(0, ("C19.content.every_text_carrier", _phantom_text_content))
+GENERATORS.insert(0, ("C19.content.promoted_for_every", _phantom_text_content))
